@@ -83,9 +83,16 @@ def cmp_value(spec, real, sym_rtol=1e-9, num_kind=True):
         if kr not in ("int", "float", "complex"):
             return "value %r is not a number (specification: %s)" % (real, k)
         if not num_kind:
-            spec = dict(spec, k=kr) if (kr, k) in (("int", "float"), ("float", "int"), ("float", "complex"), ("int", "complex")) else spec
-            if spec["k"] != k and spec.get("x") and spec["k"] == "int" and Fraction(*spec["re"]).denominator != 1:
-                return "value %r, specification says %s" % (x, Fraction(*spec["re"]))
+            # numeric comparison only: an int 3, a float 3.0 and a complex 3+0j are the same value
+            try:
+                if spec["x"]:
+                    want = complex(float(Fraction(*spec["re"])), float(Fraction(*spec["im"])))
+                    err = abs(want) * values.U
+                else:
+                    want, err = values.eval_term(spec["term"])
+                return None if values.close(complex(x), complex(want), err) else "value %r, specification says %r" % (x, want)
+            except values.NotComparable:
+                return None
         try:
             return values.compare_number(spec, real)
         except values.NotComparable:
@@ -112,13 +119,13 @@ def cmp_value(spec, real, sym_rtol=1e-9, num_kind=True):
         if real.shape != shape:
             return "array shape %s, specification says %s" % (real.shape, shape)
         has_sym = any(e["k"] == "sym" for r in rows for e in r)
-        if not has_sym:
+        if not has_sym and num_kind:
             kind = {"i": "int", "f": "float", "c": "complex"}.get(real.dtype.kind)
             if kind != spec["ty"]:
                 return "array dtype %s, specification says %s" % (real.dtype, spec["ty"])
         for r in range(shape[0]):
             for c in range(shape[1]):
-                w = cmp_value(rows[r][c], real[r][c], sym_rtol, num_kind=not has_sym)
+                w = cmp_value(rows[r][c], real[r][c], sym_rtol, num_kind=num_kind and not has_sym)
                 if w:
                     return "array element (%d,%d): %s" % (r, c, w)
         return None
